@@ -198,6 +198,25 @@ def cancel_component(ck, rng, tier):
                     ck.violation(f"cancel/{name}/cancel-lost", f"QueryHandle::cancel {delay} ms into a {T} ms query ({threads} threads, {P} partitions): the stream ended normally with rows after {r['elapsed_ms']} ms instead of an error", replay)
                 elif r["elapsed_ms"] > delay + max(1500, T // 2):
                     ck.violation(f"cancel/{name}/cancel-late", f"cancel after {delay} ms took effect only after {r['elapsed_ms']} ms (baseline {T} ms)", replay)
+    # cancel while the client is draining a result and producers queue behind the single-slot buffer: the client's poll_next
+    # wakes producers under the stream's lock while the canceller reports the error from inside schedule() - the lock-order
+    # inversion of finding F58 deadlocked here (measured on the unrepaired tree: about one deadlock per 100 iterations with the
+    # first two queries, none with a plain scan)
+    drain_qs = ["SELECT CAST(CASE WHEN x = 77777 THEN 'zz' ELSE '1' END AS INT) FROM generate_series(1, 100000) a(x)", "SELECT CAST('1' AS INT) + x FROM generate_series(1, 300000) a(x)",
+                "SELECT x, x * 2, x % 7 FROM generate_series(1, 1500000) g(x)"]
+    n = 450 if tier == "quick" else 5000
+    for i in range(n):
+        drain_q = drain_qs[2 if i % 9 == 8 else i % 2]
+        threads, P = rng.pick([(4, 8), (2, 4), (8, 8), (1, 2), (4, 3)])
+        delay = rng.pick([0, 1, 2, 3, 5, 8, 13, 20, 30])
+        r = proc.call({"threads": threads, "partitions": P, "delay_ms": delay, "query": drain_q}, timeout=25)
+        ck.count(comp, 1)
+        ck.nontrivial(("drain", threads, P, delay, i))
+        if "outcome" not in r:
+            ck.violation("cancel/drain/hang-or-crash", f"cancelling a query {delay} ms in, while the client is reading its result ({threads} threads, {P} partitions): the stream never ends ({str(r)[:100]})",
+                         {"kind": "cancel", "query": drain_q, "threads": threads, "partitions": P, "cancel_after_ms": delay, "iteration": i, "result": r,
+                          "replay_cmd": f"for i in $(seq 300); do echo '{json.dumps({'id': 1, 'threads': threads, 'partitions': P, 'delay_ms': delay, 'query': drain_q})}' | timeout 60 {vlib.GVH} cancel || echo HANG; done"})
+            break
     proc.kill()
 
 
